@@ -965,6 +965,34 @@ func oddVariant(r *common.Rng, n string) string {
 
 func init() {
 	faults = append(faults,
+		// every address form x enabled networks of a proxy client, for every non-direct client protocol
+		fault{"client-address-forms", func(r *common.Rng, c *ConfigC) bool {
+			k := pickClient(r, c, func(*ClientC) bool { return true })
+			if k == nil {
+				c.Clients = append(c.Clients, ClientC{Name: "cx"})
+				k = &c.Clients[len(c.Clients)-1]
+			}
+			p := common.Pick(r, []string{"socks5", "http", "none", "plain", "2022-blake3-aes-128-gcm", "2022-blake3-aes-256-gcm"})
+			if k.Proto != p {
+				k.Proto = p
+				k.PSK, k.IPSK, k.S5 = 0, nil, false
+				if isSS(p) {
+					k.PSK = keyLen(p)
+				}
+			}
+			form := common.Pick(r, []int{0, 1, 2, 2, 2, 3, 3, 3, 4, 5, 6})
+			k.EP, k.TA, k.UA = form == 0 || form >= 5, form == 1 || form == 2 || form == 5, form == 1 || form == 3 || form == 6
+			// form: 0 endpoint | 1 tcp+udp | 2 tcp only | 3 udp only | 4 none | 5 endpoint+tcp | 6 endpoint+udp
+			en := common.Pick(r, []int{0, 1, 2, 3, 3, 3})
+			k.ETCP, k.EUDP = en&1 == 1 || en == 0 && r.Bool(), en&2 == 2
+			if p == "http" && r.Chance(3, 4) {
+				k.EUDP = false
+			}
+			if k.EUDP && k.MTU < 1280 {
+				k.MTU = 1500
+			}
+			return true
+		}},
 		fault{"route-ports", func(r *common.Rng, c *ConfigC) bool {
 			if len(c.Router.Routes) == 0 {
 				return false
